@@ -126,7 +126,7 @@ fn profile(name: &str) -> P {
         "lifecycle" => {
             p.clients = (1, 4);
             p.ops = (1, 6);
-            p.w_op = [25, 5, 20, 5, 2, 12, 10, 3, 6, 2, 2, 2, 2, 4];
+            p.w_op = [25, 5, 20, 5, 8, 12, 10, 3, 6, 2, 2, 2, 2, 4];
             p.p_start_delay = 70;
             p.p_start_err = 10;
             p.p_start_panic = 5;
@@ -141,7 +141,7 @@ fn profile(name: &str) -> P {
         "kill" => {
             p.clients = (2, 6);
             p.ops = (2, 7);
-            p.w_op = [35, 5, 22, 5, 2, 4, 14, 2, 3, 1, 1, 2, 1, 4];
+            p.w_op = [35, 5, 22, 5, 8, 4, 14, 2, 3, 1, 1, 2, 1, 4];
             p.first_gated = 50;
             p.p_kill_self = 8;
             p.p_start_err = 2;
@@ -532,7 +532,7 @@ pub fn generate(profile_name: &str, seed: u64) -> Scenario {
     finish(&mut g, profile_name, seed, actors, &tell_only)
 }
 
-fn finish(g: &mut G, profile_name: &str, seed: u64, actors: Vec<ActorSpec>, tell_only: &[bool]) -> Scenario {
+fn finish(g: &mut G, profile_name: &str, seed: u64, mut actors: Vec<ActorSpec>, tell_only: &[bool]) -> Scenario {
     let p = g.p.clone();
     let n = g.n;
     let mut clients = vec![];
@@ -712,6 +712,114 @@ fn finish(g: &mut G, profile_name: &str, seed: u64, actors: Vec<ActorSpec>, tell
             init,
             ops,
             drop_at_end: g.r.chance(p.p_drop_at_end),
+        });
+    }
+    if profile_name == "refs" && g.r.chance(30) {
+        // "orphan" shape: the only things keeping the actor alive are queued envelopes / a queued stop marker
+        // while it sits in a gated handler; every client drops its handles right after its last call.
+        for a in actors.iter_mut() {
+            a.in_peers = false;
+        }
+        for c in clients.iter_mut() {
+            c.drop_at_end = true;
+            c.ops.retain(|o| !matches!(o.op, Op::OpenGate(_)));
+            for o in c.ops.iter_mut() {
+                if let Pre::Sleep(x) = o.pre {
+                    o.pre = Pre::Sleep(x.min(4));
+                }
+            }
+        }
+        if !gated_first {
+            if let Some(c0) = clients.first_mut() {
+                let uid = g.uid();
+                c0.ops.insert(
+                    0,
+                    ClientOp {
+                        pre: Pre::None,
+                        op: Op::Send {
+                            slot: 0,
+                            kind: SendKind::Tell,
+                            mty: MTy::U,
+                            body: Body {
+                                uid,
+                                flags: 0,
+                                steps: vec![Step::Gate(0)],
+                            },
+                        },
+                    },
+                );
+            }
+        }
+        if g.r.chance(60) {
+            if let Some(c) = clients.last_mut() {
+                let strong: Vec<usize> = c.init.iter().enumerate().filter(|(_, a)| a.is_some()).map(|(i, _)| i).collect();
+                if let Some(slot) = strong.first() {
+                    c.ops.push(ClientOp {
+                        pre: Pre::Sleep(2),
+                        op: Op::Stop { slot: *slot },
+                    });
+                }
+            }
+        }
+    }
+    if profile_name == "refs" && g.r.chance(25) {
+        // "closer" shape: nothing is gated, everybody drops their handles early; then one task holding the last
+        // strong handle does `tell-or-stop; drop; upgrade` without yielding in between.
+        fn strip(steps: &mut Vec<Step>) {
+            steps.retain(|s| !matches!(s, Step::Gate(_) | Step::HoldRef(_)));
+            for s in steps.iter_mut() {
+                if let Step::Peer { body, .. } | Step::SelectAsk { body, .. } | Step::DetachedAsk { body, .. } = s {
+                    strip(&mut body.steps);
+                }
+            }
+        }
+        for a in actors.iter_mut() {
+            a.in_peers = false;
+        }
+        for c in clients.iter_mut() {
+            c.drop_at_end = true;
+            c.ops.retain(|o| !matches!(o.op, Op::OpenGate(_)));
+            for o in c.ops.iter_mut() {
+                if let Pre::Sleep(x) = o.pre {
+                    o.pre = Pre::Sleep(x.min(2));
+                }
+                if let Op::Send { body, .. } = &mut o.op {
+                    strip(&mut body.steps);
+                }
+            }
+        }
+        let a = g.r.below(n as u64) as usize;
+        let uid = g.uid();
+        let uid2 = g.uid();
+        let last = if g.r.chance(50) {
+            Op::Stop { slot: 0 }
+        } else {
+            Op::Send {
+                slot: 0,
+                kind: SendKind::Tell,
+                mty: MTy::U,
+                body: Body {
+                    uid,
+                    flags: 0,
+                    steps: if g.r.chance(50) { vec![Step::Sleep(2)] } else { vec![] },
+                },
+            }
+        };
+        let ops = vec![
+            ClientOp { pre: Pre::None, op: Op::Downgrade { from: 0, to: 3 } },
+            ClientOp { pre: Pre::Sleep(2 * g.r.range(8, 20)), op: last },
+            ClientOp { pre: Pre::None, op: Op::DropSlot { slot: 0 } },
+            ClientOp { pre: if g.r.chance(70) { Pre::None } else { Pre::Yield }, op: Op::Upgrade { from: 3, to: 2 } },
+            ClientOp { pre: Pre::None, op: Op::ProbeIdent { slot: 2 } },
+            ClientOp {
+                pre: Pre::Sleep(2),
+                op: Op::Send { slot: 2, kind: SendKind::Ask, mty: MTy::U, body: Body::plain(uid2) },
+            },
+        ];
+        clients.push(ClientSpec {
+            init: vec![Some(a), None, None, None],
+            ops,
+            drop_at_end: true,
         });
     }
     let teardown = (0..n)
